@@ -4,6 +4,7 @@ package main
 // holes, through constants, +, fmt.Sprintf with a constant format, and path-resolved phis.
 
 import (
+	"fmt"
 	"go/token"
 	"go/types"
 	"sort"
@@ -73,6 +74,32 @@ func (c *Ctx) skelD(v ssa.Value, e *env, depth int) []Seg {
 		if g := call.Call.StaticCallee(); g != nil && g.Name() == "String" && g.Signature.Recv() != nil && len(call.Call.Args) == 1 &&
 			g.Signature.Params().Len() == 0 && g.Signature.Results().Len() == 1 && isStringType(g.Signature.Results().At(0).Type()) && inModule(g) {
 			return []Seg{{Hole: c.key(call.Call.Args[0], e), Verb: "%s", Val: call.Call.Args[0]}}
+		}
+		// the strconv spellings of the fmt verbs
+		switch calleeFullName(call) {
+		case "strconv.Itoa":
+			return []Seg{{Hole: c.key(call.Call.Args[0], e), Verb: "%d", Val: call.Call.Args[0]}}
+		case "strconv.FormatInt":
+			if base, ok := constIntVal(c.resolve(call.Call.Args[1], e)); ok && base == 10 {
+				x := c.resolve(call.Call.Args[0], e)
+				if cv, ok := x.(*ssa.Convert); ok {
+					x = cv.X
+				}
+				return []Seg{{Hole: c.key(x, e), Verb: "%d", Val: x}}
+			}
+		case "strconv.FormatFloat":
+			f, okF := constIntVal(c.resolve(call.Call.Args[1], e))
+			prec, okP := constIntVal(c.resolve(call.Call.Args[2], e))
+			bits, okB := constIntVal(c.resolve(call.Call.Args[3], e))
+			if okF && okP && okB && bits == 64 {
+				x := call.Call.Args[0]
+				switch {
+				case prec < 0 && (f == 'g' || f == 'f' || f == 'e'):
+					return []Seg{{Hole: c.key(x, e), Verb: "%v", Val: x}}
+				case f == 'f' && prec >= 0:
+					return []Seg{{Hole: c.key(x, e), Verb: fmt.Sprintf("%%.%df", prec), Val: x}}
+				}
+			}
 		}
 		if calleeFullName(call) == "(*strings.Builder).String" && len(call.Call.Args) == 1 {
 			if segs, ok := c.builderSkeleton(call, e, depth); ok {
